@@ -1343,6 +1343,28 @@ fn same_item(got: &pl::Payload, exp: &pl::Payload) -> Result<(), String> {
     if got.cmp(exp) != std::cmp::Ordering::Equal || got.partial_cmp(exp) != Some(std::cmp::Ordering::Equal) {
         return Err(format!("item {:?} equals the expected {:?} but does not compare Equal", got, exp));
     }
+    // the item's own accessors and conversions tell the same story
+    let (o, k, a) = (got.to_origin(), got.as_router_key(), got.as_aspa());
+    let consistent = match got {
+        pl::Payload::Origin(x) => {
+            o == Some(*x) && k.is_none() && a.is_none() && got.payload_type() == pl::PayloadType::Origin
+                && pl::Payload::from(*x) == *got && x.is_v4() == x.prefix.prefix().is_v4()
+                && pl::Payload::origin(x.prefix, x.asn) == *got && pl::RouteOrigin::new(x.prefix, x.asn) == *x
+        }
+        pl::Payload::RouterKey(x) => {
+            o.is_none() && k == Some(x) && a.is_none() && got.payload_type() == pl::PayloadType::RouterKey
+                && pl::Payload::from(x.clone()) == *got
+                && pl::Payload::router_key(x.key_identifier, x.asn, x.key_info.clone()) == *got
+        }
+        pl::Payload::Aspa(x) => {
+            o.is_none() && k.is_none() && a == Some(x) && got.payload_type() == pl::PayloadType::Aspa
+                && pl::Payload::from(x.clone()) == *got && x.key() == x.customer
+                && pl::Payload::aspa(x.customer, x.providers.clone()) == *got
+        }
+    };
+    if !consistent {
+        return Err(format!("accessors / conversions of {:?} disagree with the item: to_origin {:?}, as_router_key {:?}, as_aspa {:?}, type {:?}", got, o, k, a, got.payload_type()));
+    }
     Ok(())
 }
 
@@ -1404,6 +1426,8 @@ fn run_payload(c: &PayCase, obs: &mut Obs) -> CheckResult {
     if c.flags <= 1 {
         ensure!(pl::Action::from_flags(c.flags) == exp_action && exp_action.into_flags() == c.flags, "Action <-> flags for {}", c.flags);
     }
+    ensure!(action.is_announce() == (c.flags & 1 == 1) && action.is_withdraw() == (c.flags & 1 == 0) && pl::Action::from_flags(action.into_flags()) == action,
+        "Action accessors for flags {}: {:?}", c.flags, action);
     let exp = expected_item(&item, c.flags);
     ensure!(got == exp, "item after the wire {:?}, expected {:?}", got, exp);
     if let Err(e) = same_item(&got, &exp) {
